@@ -216,6 +216,13 @@ fn eval(ctx: &mut Ctx, hay: &[u8], needle: &[u8]) {
     });
 }
 
+/// long inputs: the case is recorded as "in flight" while it runs
+fn eval_deep(ctx: &mut Ctx, hay: &[u8], needle: &[u8]) {
+    ctx.inflight("find", &Case { hay: hay.to_vec(), needle: needle.to_vec() });
+    eval(ctx, hay, needle);
+    ctx.landed();
+}
+
 fn product(ctx: &mut Ctx, hays: &[Vec<u8>], needles: &[Vec<u8>]) {
     for h in hays {
         for n in needles {
@@ -340,11 +347,11 @@ fn explore(ctx: &mut Ctx) {
             for at in [0usize, 254, 255, 256, 32_766, 32_767, 32_768, 65_534, 65_535, 65_536, 65_537, total - needle.len() - 1, total - needle.len()] {
                 let mut hay = vec![b'a'; total];
                 hay[at..at + needle.len()].copy_from_slice(needle);
-                eval(ctx, &hay, needle);
+                eval_deep(ctx, &hay, needle);
                 // and a second occurrence further right (rfind must report that one)
                 if at + 2 * needle.len() + 300 < total {
                     hay[at + needle.len() + 299..at + 2 * needle.len() + 299].copy_from_slice(needle);
-                    eval(ctx, &hay, needle);
+                    eval_deep(ctx, &hay, needle);
                 }
             }
         }
@@ -387,6 +394,10 @@ pub fn fold_case((h, n, extra, plant): &(Vec<u8>, Vec<u8>, Vec<u8>, bool)) -> Ca
 }
 
 fn main() {
+    kvh::on_thread(real_main);
+}
+
+fn real_main() {
     let args = kvh::parse_args("C04", "c04");
     let mut ctx = Ctx::new(args.clone(), RULE);
     if let Some(p) = &args.replay {
